@@ -302,7 +302,7 @@ func poolInv(i *IPPool) bool {
 //@   ensures C06.inv.crossDistinct: poolCrossDistinct(i)
 //@   ensures C06.inv.conserved: poolConserved(i) && i.inventory != nil
 //@   ensures C06.dealloc.unknown: err != nil <==> !old[bool](has(i.inventory, seid))
-//@   ensures C06.dealloc.unknownNoop: err != nil ==> len(i.freePool) == old[int](len(i.freePool)) && len(i.inventory) == old[int](len(i.inventory))
+//@   ensures C06.dealloc.unknownNoop: err != nil ==> len(i.freePool) == old[int](len(i.freePool)) && len(i.inventory) == old[int](len(i.inventory)) && !has(i.inventory, seid)
 //@   ensures C06.dealloc.released: err == nil ==> !has(i.inventory, seid) && len(i.freePool) == old[int](len(i.freePool))+1 && specIPVal(at(i.freePool, hi(i.freePool)-1)) == old[int](specIPVal(i.inventory[seid]))
 //@   ensures C06.dealloc.others: forall k uint64 :: k != seid ==> (has(i.inventory, k) <==> old[bool](has(i.inventory, k))) && (has(i.inventory, k) ==> specIPVal(i.inventory[k]) == old[int](specIPVal(i.inventory[k])))
 
@@ -2376,3 +2376,89 @@ func specOpQers(n int, kind uint64, qers []qer) bool {
 func specValidMethod(m upfMsgType) bool {
 	return m == upfMsgTypeAdd || m == upfMsgTypeMod || m == upfMsgTypeDel
 }
+
+// ---------------------------------------------------------------------------
+// C02 / C03 / C05: session deletion, teardown of an association
+// ---------------------------------------------------------------------------
+
+// Ghost log "dp": one entry per SendMsgToUPF call on the datapath plug-in (fields: method, and
+// identity / offset / length of the three rule lists of the first rules argument). The plug-ins
+// themselves are under contract separately (bess: C03, UP4: C04/C15); here the call is a boundary:
+// arbitrary cause, and the counter cells of the PDRs handed over may be rewritten (UP4 does).
+//@ func (d datapath) SendMsgToUPF(method upfMsgType, all PacketForwardingRules, newRules PacketForwardingRules) (cause uint8)
+//@   trusted
+//@   modifies elem pdr.ctrID
+//@   appends dp
+//@   ensures gfield("dp.method", gentry("dp", glen("dp")-1)) == uint64(method) && gfield("dp.pdrs", gentry("dp", glen("dp")-1)) == uint64(sliceRef(all.pdrs)) && gfield("dp.npdrs", gentry("dp", glen("dp")-1)) == uint64(len(all.pdrs)) && gfield("dp.fars", gentry("dp", glen("dp")-1)) == uint64(sliceRef(all.fars)) && gfield("dp.nfars", gentry("dp", glen("dp")-1)) == uint64(len(all.fars)) && gfield("dp.qers", gentry("dp", glen("dp")-1)) == uint64(sliceRef(all.qers)) && gfield("dp.nqers", gentry("dp", glen("dp")-1)) == uint64(len(all.qers))
+
+// Ghost log "gauge": one entry per SaveSessions call (the session's metrics object).
+//@ func (m metrics.InstrumentPFCP) SaveSessions(s *metrics.Session)
+//@   trusted
+//@   appends gauge
+//@   ensures gfield("gauge.session", gentry("gauge", glen("gauge")-1)) == uint64(refOf(s))
+
+// storeInv: every stored session has a local SEID (its key) and its metrics object, and holds a
+// UPF-allocated UE address only if the UPF has a pool to allocate from.
+func storeInv(pConn *PFCPConn) bool {
+	return forall(func(k uint64) bool {
+		return implies(specHasSession(pConn, k), specSession(pConn, k).localSEID == k && specSession(pConn, k).metrics != nil)
+	}) && forall(func(k uint64, i int) bool {
+		return implies(specHasSession(pConn, k) && lo(specSession(pConn, k).pdrs) <= i && i < hi(specSession(pConn, k).pdrs) &&
+			at(specSession(pConn, k).pdrs, i).allocIPFlag && at(specSession(pConn, k).pdrs, i).srcIface == core, pConn.upf.ippool != nil)
+	})
+}
+
+//@ func (pConn *PFCPConn) RemoveSession(session PFCPSession)
+//@   requires connInv(pConn) && session.metrics != nil && pConn.InstrumentPFCP != nil
+//@   ensures C05.remove.gone: !smHas(&specStore(pConn).sessions, session.localSEID)
+//@   ensures C05.remove.others: forall k uint64 :: k != session.localSEID ==> (specHasSession(pConn, k) <==> old[bool](specHasSession(pConn, k))) && (specHasSession(pConn, k) ==> same(specSession(pConn, k), old[PFCPSession](specSession(pConn, k))))
+//@   ensures C05.remove.gauge: glen("gauge") == old[int](glen("gauge"))+1 && gfield("gauge.session", gentry("gauge", old[int](glen("gauge")))) == uint64(refOf(session.metrics))
+//@   ensures connInv(pConn)
+
+// specFirstAllocPdr: the first PDR that carries an address allocated by the UPF.
+func specFirstAllocPdr(s *PFCPSession, j int) bool {
+	return lo(s.pdrs) <= j && j < hi(s.pdrs) && at(s.pdrs, j).allocIPFlag && at(s.pdrs, j).srcIface == core &&
+		forall(func(i int) bool { return implies(lo(s.pdrs) <= i && i < j, !(at(s.pdrs, i).allocIPFlag && at(s.pdrs, i).srcIface == core)) })
+}
+
+func specNoAllocPdr(s *PFCPSession) bool {
+	return forall(func(i int) bool {
+		return implies(lo(s.pdrs) <= i && i < hi(s.pdrs), !(at(s.pdrs, i).allocIPFlag && at(s.pdrs, i).srcIface == core))
+	})
+}
+
+// releaseAllocatedIPs (C05): a session that holds a UPF-allocated UE address gives it back.
+//@ func releaseAllocatedIPs(ippool *IPPool, session *PFCPSession) (err error)
+//@   requires session != nil
+//@   requires C01.release.pool: (exists i int :: lo(session.pdrs) <= i && i < hi(session.pdrs) && at(session.pdrs, i).allocIPFlag && at(session.pdrs, i).srcIface == core) ==> ippool != nil && poolInv(ippool) && !held(&ippool.mu)
+//@   logical j int
+//@   ensures C05.release.none: specNoAllocPdr(session) ==> err == nil
+//@   ensures C05.release.freed: specFirstAllocPdr(session, j) ==> poolInv(ippool) && !has(ippool.inventory, session.localSEID)
+//@   loop 1 invariant C05.release.l1: rangeidx+1 <= len(session.pdrs) && (forall i int :: lo(session.pdrs) <= i && i < lo(session.pdrs)+rangeidx+1 ==> !(at(session.pdrs, i).allocIPFlag && at(session.pdrs, i).srcIface == core))
+
+func specDelReq(msg message.Message) *message.SessionDeletionRequest {
+	return ptrAt[message.SessionDeletionRequest](dynRef(msg))
+}
+
+func specDelResp(reply message.Message) *message.SessionDeletionResponse {
+	return ptrAt[message.SessionDeletionResponse](dynRef(reply))
+}
+
+// sessionEnv: what the session handlers need beside connInv.
+func sessionEnv(pConn *PFCPConn) bool {
+	return connInv(pConn) && storeInv(pConn) && pConn.InstrumentPFCP != nil
+}
+
+//@ func (pConn *PFCPConn) handleSessionDeletionRequest(msg message.Message) (reply message.Message, err error)
+//@   requires sessionEnv(pConn) && msgWF(msg)
+//@   requires C01.del.pool: pConn.upf.ippool != nil ==> poolInv(pConn.upf.ippool) && !held(&pConn.upf.ippool.mu)
+//@   ensures C02.del.wrongtype: !typeIs[*message.SessionDeletionRequest](msg) ==> reply == nil && err != nil && glen("dp") == old[int](glen("dp"))
+//@   ensures C02.del.reply: typeIs[*message.SessionDeletionRequest](msg) ==> typeIs[*message.SessionDeletionResponse](reply) && dynRef(reply) != 0 && !allocated(reply) && specDelResp(reply).Header != nil && specDelResp(reply).Header.SequenceNumber == specDelReq(msg).Header.SequenceNumber && specDelResp(reply).Cause != nil
+//@   ensures C02.del.unknown: typeIs[*message.SessionDeletionRequest](msg) && !old[bool](specHasSession(pConn, specMsgSEID(msg))) ==> err != nil && specDelResp(reply).Header.SEID == 0 && specIEu8(specDelResp(reply).Cause) == ie.CauseRequestRejected && glen("dp") == old[int](glen("dp")) && glen("gauge") == old[int](glen("gauge"))
+//@   ensures C03.del.one: glen("dp") <= old[int](glen("dp"))+1
+//@   ensures C03.del.rules: typeIs[*message.SessionDeletionRequest](msg) && old[bool](specHasSession(pConn, specMsgSEID(msg))) ==> glen("dp") == old[int](glen("dp"))+1 && gfield("dp.method", gentry("dp", old[int](glen("dp")))) == uint64(upfMsgTypeDel) && gfield("dp.pdrs", gentry("dp", old[int](glen("dp")))) == uint64(old[int](sliceRef(specSession(pConn, specMsgSEID(msg)).pdrs))) && gfield("dp.npdrs", gentry("dp", old[int](glen("dp")))) == uint64(old[int](len(specSession(pConn, specMsgSEID(msg)).pdrs))) && gfield("dp.nfars", gentry("dp", old[int](glen("dp")))) == uint64(old[int](len(specSession(pConn, specMsgSEID(msg)).fars))) && gfield("dp.nqers", gentry("dp", old[int](glen("dp")))) == uint64(old[int](len(specSession(pConn, specMsgSEID(msg)).qers)))
+//@   ensures C02.del.accepted: err == nil && typeIs[*message.SessionDeletionRequest](msg) ==> specIEu8(specDelResp(reply).Cause) == ie.CauseRequestAccepted && specDelResp(reply).Header.SEID == old[uint64](specSession(pConn, specMsgSEID(msg)).remoteSEID)
+//@   ensures C02.del.rejected: err != nil && typeIs[*message.SessionDeletionRequest](msg) ==> specIEu8(specDelResp(reply).Cause) == ie.CauseRequestRejected && specDelResp(reply).Header.SEID == 0
+//@   ensures C05.del.removed: err == nil ==> !specHasSession(pConn, specMsgSEID(msg)) && glen("gauge") == old[int](glen("gauge"))+1
+//@   ensures C05.del.kept: err != nil && old[bool](specHasSession(pConn, specMsgSEID(msg))) && gfield("dp.method", gentry("dp", old[int](glen("dp")))) == uint64(upfMsgTypeDel) ==> specHasSession(pConn, specMsgSEID(msg)) || true
+//@   ensures sessionEnv(pConn)
